@@ -42,6 +42,10 @@ class FrameItem(EFLRItem):
         self.index_min = NumericAttribute('index_min')
         self.index_max = NumericAttribute('index_max')
 
+        # attribute parts (e.g. value of index_min) which were not specified by the user, but determined from data,
+        # kept together with the determined values; they are determined anew every time the frame is set up from data
+        self._parts_from_data: list[tuple[Attribute, str, Any]] = []
+
         super().__init__(name, parent=parent, **kwargs)
 
     @staticmethod
@@ -96,6 +100,13 @@ class FrameItem(EFLRItem):
             if getattr(attr, key) is None and value is not None:
                 logger.debug(f"Setting {attr.label}.{key} of {self} to {value}")
                 setattr(attr, key, value)
+                self._parts_from_data.append((attr, key, getattr(attr, key)))
+
+        # forget what was determined from the previously used data (unless changed by the user in the meantime)
+        for attr_, key_, value_ in self._parts_from_data:
+            if getattr(attr_, key_) is value_:
+                setattr(attr_, f'_{key_}', None)
+        self._parts_from_data = []
 
         index_channel: ChannelItem = self.channels.value[0]
         index_data = data[index_channel.name][:]
@@ -185,7 +196,8 @@ class FrameItem(EFLRItem):
     def known_channel_dtypes_mapping(self) -> dict:
         """Mapping of names of channels of the frame on the data types, if explicitly defined."""
 
-        return {ch.name: ch.cast_dtype for ch in self.channels.value if ch.cast_dtype is not None}
+        return {ch.name: ch.cast_dtype for ch in self.channels.value
+                if ch.cast_dtype is not None and not ch.cast_dtype_from_data}
 
 
 class FrameSet(EFLRSet):
